@@ -33,7 +33,8 @@ pub fn std_dev(a: &Act) -> u8 {
         Act::Exec { hold, .. } | Act::Hook { hold, .. } => *hold as u8,
         Act::IbcUp { up } => (!*up) as u8,
         Act::Sudo { .. } => 1,
-        Act::ReplyFault { mode } => (*mode != 0) as u8,
+        // arming a reply fault is free; it only matters together with a later (held) transfer
+        Act::ReplyFault { .. } => 0,
         _ => 0,
     }
 }
